@@ -262,6 +262,63 @@ fn parse_steps(toks: &[&str]) -> (usize, Vec<(usize, Vec<String>)>) {
     (nthreads, steps)
 }
 
+extern "C" {
+    fn pipe(fds: *mut i32) -> i32;
+    fn dup2(a: i32, b: i32) -> i32;
+}
+/// Lines the stdout default logger(s) of the code under test have printed so far (child mode: fd 1 of the child
+/// is a pipe read by a helper thread).  Several default loggers can exist one after the other (every time the
+/// installed logger is dropped the next logging call starts a new one) and their threads print concurrently, so
+/// the conductor waits for the line of a step before it lets the next step run.
+static CAPTURED: Mutex<Vec<String>> = Mutex::new(Vec::new());
+fn capture_stdout() {
+    let mut fds = [0i32; 2];
+    unsafe {
+        assert_eq!(pipe(fds.as_mut_ptr()), 0);
+        assert!(dup2(fds[1], 1) >= 0);
+    }
+    use std::os::fd::FromRawFd;
+    let rd = unsafe { std::fs::File::from_raw_fd(fds[0]) };
+    std::thread::spawn(move || {
+        for l in BufReader::new(rd).lines() {
+            match l {
+                Ok(l) => CAPTURED.lock().unwrap().push(l),
+                Err(_) => break,
+            }
+        }
+    });
+}
+fn wait_captured(n: usize) {
+    let t0 = std::time::Instant::now();
+    while CAPTURED.lock().unwrap().len() < n && t0.elapsed() < Duration::from_secs(5) {
+        std::thread::sleep(Duration::from_micros(200));
+    }
+}
+/// "<time> <level> <tags>": drop the time, canonicalise the duration; fill the `@` placeholders in order
+fn splice(obs: &str, lines: &[String]) -> String {
+    let expected = obs.matches('@').count();
+    let texts: Vec<String> = lines
+        .iter()
+        .map(|l| {
+            let body = l.split_once(' ').map_or("", |x| x.1);
+            tok_of_bytes(&canon_duration(body.as_bytes().to_vec()))
+        })
+        .collect();
+    let mut out = String::new();
+    let mut k = 0;
+    for part in obs.split('@') {
+        out.push_str(part);
+        if k < expected {
+            out.push_str(texts.get(k).map_or("missing", String::as_str));
+            k += 1;
+        }
+    }
+    for extra in texts.iter().skip(expected) {
+        out.push_str(&format!(" EXTRA-DEFAULT-LINE {extra}"));
+    }
+    out
+}
+
 /// Turn-taking run.  Returns the observation line.
 fn run_turns(toks: &[&str], child: bool) -> String {
     let (nthreads, steps) = parse_steps(toks);
@@ -285,6 +342,10 @@ fn run_turns(toks: &[&str], child: bool) -> String {
         gos[t].send(action).unwrap();
         let reply = done_rx.recv_timeout(Duration::from_secs(20)).unwrap_or_else(|_| "timeout".to_string());
         out.push_str(&reply);
+        if child {
+            // the default logger's line for this step must have been printed before the next step runs
+            wait_captured(out.matches('@').count());
+        }
         out.push_str(&drain(&sh));
         out.push_str(" ; ");
     }
@@ -425,27 +486,7 @@ fn run_in_child(toks: &[&str]) -> String {
     }
     let mut rest = String::new();
     let _ = err.read_to_string(&mut rest);
-    // "<time> <level> <tags>": drop the time, canonicalise the duration
-    let texts: Vec<String> = lines
-        .iter()
-        .map(|l| {
-            let body = l.split_once(' ').map_or("", |x| x.1);
-            tok_of_bytes(&canon_duration(body.as_bytes().to_vec()))
-        })
-        .collect();
-    let mut out = String::new();
-    let mut k = 0;
-    for part in obs.split('@') {
-        out.push_str(part);
-        if k < expected {
-            out.push_str(texts.get(k).map_or("missing", String::as_str));
-            k += 1;
-        }
-    }
-    for extra in texts.iter().skip(expected) {
-        out.push_str(&format!(" EXTRA-DEFAULT-LINE {extra}"));
-    }
-    out
+    splice(&obs, &lines)
 }
 
 fn main() {
@@ -457,8 +498,11 @@ fn main() {
         let mut line = String::new();
         stdin.lock().read_line(&mut line).unwrap();
         let toks: Vec<&str> = line.split_ascii_whitespace().collect();
+        capture_stdout();
         let obs = run_turns(&toks[1..], true);
-        eprintln!("{obs}");
+        std::thread::sleep(Duration::from_millis(20)); // lines nobody waited for (there should be none)
+        let lines = CAPTURED.lock().unwrap().clone();
+        eprintln!("{}", splice(&obs, &lines));
         // wait until the parent has read what the default logger printed
         let mut sink = String::new();
         let _ = stdin.lock().read_to_string(&mut sink);
